@@ -4,6 +4,7 @@ import (
 	"fmt"
 	"os"
 	"strings"
+	"sync"
 
 	"verifharness/explore"
 	"verifharness/ref"
@@ -240,12 +241,14 @@ const ruleSingle = "explicit-state BFS to closure over {insert,delete} x keys x 
 func C04(run *report.Run) {
 	runSingle(run, "C04", StructConfigs(run.Thorough(), []string{"none", "big"}, bothFormats), func(*world.Config) explore.Monitor { return &c04Mon{} }, stdOps)
 	c04FaultHistories(run)
+	fanOut(run, "C04", multiTreePlans(run.Thorough()), func(*world.Config) explore.Monitor { return &c04Mon{} })
 	run.Rule = ruleSingle + "; oracle: Root == root of the independently built canonical tree of the entries the tree holds"
 }
 
 func C09(run *report.Run) {
 	runSingle(run, "C09", StructConfigs(run.Thorough(), []string{"none", "big"}, bothFormats), func(*world.Config) explore.Monitor { return &c09Mon{} }, stdOps)
 	c09FaultHistories(run)
+	fanOut(run, "C09", multiTreePlans(run.Thorough()), func(*world.Config) explore.Monitor { return &c09Mon{} })
 	run.Rule = ruleSingle + "; oracle: every persisted version, decoded by the reference codec, satisfies the shape invariants relative to the recorded height"
 }
 
@@ -274,6 +277,13 @@ func C08(run *report.Run) {
 		c08all = append(c08all, m)
 		return m
 	}, stdOps)
+	fanOut(run, "C08", multiTreePlans(run.Thorough()), func(*world.Config) explore.Monitor {
+		m := newC08()
+		c08mu.Lock()
+		c08all = append(c08all, m)
+		c08mu.Unlock()
+		return m
+	})
 	for _, m := range c08all {
 		total += m.stores
 		distinct += int64(len(m.nameBytes))
@@ -284,11 +294,13 @@ func C08(run *report.Run) {
 }
 
 var c08all []*c08Mon
+var c08mu sync.Mutex
 
 func C05(run *report.Run) {
 	cfgs := StructConfigs(run.Thorough(), []string{"none", "big"}, bothFormats)
 	cfgs = append(cfgs, C05ExtraConfigs(run.Thorough())...)
 	runSingle(run, "C05", cfgs, func(*world.Config) explore.Monitor { return &c05Mon{} }, opsWithJSON)
+	fanOut(run, "C05", multiTreePlans(run.Thorough()), func(*world.Config) explore.Monitor { return &c05Mon{} })
 	run.Rule = ruleSingle + " and MakeRoot+JSON(Root)+LoadMast; oracle: the reloaded tree has the same entries (per-key Get), Size, Height, BranchFactor, NodeFormat as the tree that was persisted"
 }
 
@@ -332,6 +344,7 @@ func C05ExtraConfigs(thorough bool) []*world.Config {
 
 func C13(run *report.Run) {
 	runSingle(run, "C13", C13Configs(run.Thorough()), func(*world.Config) explore.Monitor { return &c13Mon{} }, stdOps)
+	fanOut(run, "C13", multiTreePlans(run.Thorough()), func(*world.Config) explore.Monitor { return &c13Mon{} })
 	run.Rule = ruleSingle + "; the state key additionally carries the base version and the set of keys modified since; oracle on every MakeRoot: stored names are reachable from the new root, nothing stored and same root when nothing was modified, no node of the base version rewritten unless a modified key lies in its range, <= (2h+2) writes per modified key (height unchanged); in every state IsDirty()==false implies contents == base version"
 }
 
